@@ -83,22 +83,13 @@ Definition check_case (c : case) : N :=
   | CRedir tmpl reqs sched impl =>
       let '(_, ts) := run (rd_step tmpl) sched rd_start (map (fun q => rd_init (fst q) (snd q)) reqs) in
       let same := all2 opt_out_eqb (rd_results ts) impl in
-      (* every request is answered as it would be alone on a fresh table *)
+      (* C06_redirect_every_schedule: every request is answered as it would be alone on a fresh table,
+         whatever the schedule; no known region (F-C06-1 fixed by ddf101c) *)
       let spec := all2 (fun (q : str * str) o => oeq o (Ok (rd_own tmpl (fst q) (snd q)))) reqs impl in
-      (* the known region: requests that really overlap (a schedule that is not serial) *)
-      let conc := Nat.ltb 1 (length (distinct_str (map (fun q => fst q ++ 0%N :: snd q) reqs))) && has_hole tmpl
-                  && negb (list_eqb Nat.eqb sched (serial 5 0 (length reqs))) in
-      verdict same spec (if conc then Some 1%N else None) (Nat.ltb 1 (length reqs))
+      verdict same spec None (Nat.ltb 1 (length reqs))
   | CRedirStress tmpl own others impl =>
-      (* every value some interleaving of the model produces: the own URL, another request's,
-         or the object another request had just allocated and not yet stripped / filled *)
-      let shapes := [tmpl; strip tmpl] in
-      let same := mem_str impl (map render shapes ++
-                                flat_map (fun o => map (fun p => render (fill o p)) (own :: others)) shapes) in
-      let rd_own t p := rd_own t p [] in   (* the stress templates have no $host *)
-      let spec := beq impl (rd_own tmpl own) in
-      let conc := negb (Nat.eqb (length others) 0) && has_hole tmpl in
-      verdict same spec (if conc then Some 1%N else None) true
+      let same := beq impl (rd_own tmpl own []) in    (* the stress templates have no $host *)
+      verdict same same None (negb (Nat.eqb (length others) 0))
   | CGlobSeq size calls impl impl_l impl_h impl_n impl_keys =>
       let '(s, os) := gc_history (gc_new size) calls in
       let '(fs, fos) := f_history (f_new size) calls in
@@ -158,7 +149,7 @@ Definition check_case (c : case) : N :=
           let same := res_eqb m impl in
           (* the result is a function of table, request and the one cursor: the lookup with
              every other piece of shared state changed gives the same answer *)
-          let s1 := {| lk_cursor := fun _ => cursor; lk_redirect := fun _ => Some path |} in
+          let s1 := {| lk_cursor := fun _ => cursor; lk_redirect := fun _ => Some path |} in   (* other shared state changed *)
           let spec := match fst (lookup hosts path host s1) with Ok m1 => res_eqb m1 impl | _ => false end in
           verdict same spec None (match m with Some _ => true | None => false end)
       | _ => 3%N
